@@ -5,6 +5,7 @@ import (
 	"encoding/json"
 	"os"
 	"strings"
+	"sync/atomic"
 	"time"
 
 	"google.golang.org/grpc"
@@ -69,6 +70,8 @@ type obsStream struct {
 	Timeout bool        `json:"timeout"` // ... and none carrying the awaited value arrived in time
 	Ended   string      `json:"ended"`   // "" or the status the server ended the stream with
 	Vopen   []int       `json:"vopen"`   // full Get when the stream was opened
+	Mask    obsMask     `json:"mask"`    // read mask of the Pull request
+	Sub     []int       `json:"sub"`     // as obs.sub, for the value current when the stream was opened
 	Msgs    []obsChange `json:"msgs"`    // every change read from the stream during this step, in order
 }
 type obs struct {
@@ -88,6 +91,7 @@ type obs struct {
 	Val     int         `json:"val"`
 	ValKind string      `json:"valkind"`
 	Streams []obsStream `json:"streams"`
+	Armed   bool        `json:"armed"` // Wait: a timed update succeeded and no plain Update has succeeded since
 	Note    string      `json:"note"`
 }
 
@@ -98,6 +102,9 @@ type meta struct {
 	Steps     int    `json:"steps"`
 	Timeouts  int    `json:"timeouts"`
 	Unsynced  int    `json:"unsynced"`
+	Waits     int    `json:"waits"`
+	Gated     int    `json:"gated"`   // updates held between commit and publication while a Pull was opened
+	Ungated   int    `json:"ungated"` // ... that never reached the hook point (nothing to publish)
 	Aborted   bool   `json:"aborted"`
 	Reason    string `json:"reason"`
 }
@@ -116,12 +123,30 @@ var routeNames = []string{"dev/a", "dev/b"}
 // pkg/resource, build tag verif): the harness knows without sleeping that an updates-only Pull is in place.
 var listenCh = make(chan struct{}, 4096)
 
+// gate holds the next write between its commit and its publication (hook point pub.before) while armed.
+var gate struct {
+	armed   atomic.Bool
+	reached chan struct{}
+	release chan struct{}
+}
+
 func installHook() {
+	gate.reached = make(chan struct{}, 1)
+	gate.release = make(chan struct{})
 	resource.VerifHook = func(point string, _ any, _ ...any) {
-		if point == "sub.listening" {
+		switch point {
+		case "sub.listening":
 			select {
 			case listenCh <- struct{}{}:
 			default:
+			}
+		case "pub.before":
+			if gate.armed.CompareAndSwap(true, false) {
+				gate.reached <- struct{}{}
+				select {
+				case <-gate.release:
+				case <-time.After(5 * time.Second):
+				}
 			}
 		}
 	}
@@ -147,6 +172,8 @@ type pullStream struct {
 	nread   int
 	pending int // successful non-changing updates since opened / last awaited
 	vopen   []int
+	mask    obsMask
+	sub     []int
 	topen   time.Time // taken just before the Pull was issued
 	cancel  context.CancelFunc
 	ch      chan streamEvent
@@ -164,6 +191,9 @@ type session struct {
 	streams []*pullStream
 	nextSid int
 	lastVal int // value index of the last successful Update (0: none)
+
+	armed        bool // a timed update succeeded and no plain Update has succeeded since
+	timedPending bool // a timed update was made since the last Wait
 }
 
 func (s *session) method(md protoreflect.MethodDescriptor) string {
@@ -216,7 +246,10 @@ func (s *session) fullGetMsg() (absGet, proto.Message) {
 
 // mask turns a generated selector list into a field mask.  x in 0..19: top-level field x mod n; 90: a path naming
 // no field (update masks); 20..59 (read masks): field (x-20) mod 8 mod n, and if that field is a message (or a list
-// of messages) its child number (x-20)/8 only: "field.child".  A field selected whole absorbs its sub-selections.
+// of messages) its child number (x-20)/8 only: "field.child"; 100..179 (read masks): such a field AND one of its
+// children (>= 140: child first), or the same path twice for a field that is not a message.  Read masks keep
+// duplicates and overlaps as generated; for the specification a field selected whole absorbs its sub-selections
+// (a field mask is the union of its paths).
 func (s *session) mask(g genMask, forRead bool) (*fieldmaskpb.FieldMask, obsMask) {
 	if g.Nil {
 		return nil, obsMask{Nil: true, Paths: []int{}, Nested: []int{}}
@@ -224,58 +257,80 @@ func (s *session) mask(g genMask, forRead bool) (*fieldmaskpb.FieldMask, obsMask
 	fields := s.tr.res.Fields()
 	nf := fields.Len()
 	whole := map[int]bool{}
-	var order []int
+	var order []int // field indices in order of first mention: idx whole, -idx nested
 	sub := map[int]map[string]bool{}
+	fm := &fieldmaskpb.FieldMask{}
+	addWhole := func(idx int) {
+		if whole[idx] && !forRead {
+			return
+		}
+		if !whole[idx] {
+			whole[idx] = true
+			order = append(order, idx)
+		}
+		if idx == 0 {
+			fm.Paths = append(fm.Paths, "verif_no_such_field")
+		} else {
+			fm.Paths = append(fm.Paths, string(fields.Get(idx-1).Name()))
+		}
+	}
+	childOf := func(idx, c int) protoreflect.FieldDescriptor {
+		fd := fields.Get(idx - 1)
+		if fd.Message() == nil || fd.IsMap() || fd.Message().Fields().Len() == 0 {
+			return nil
+		}
+		return fd.Message().Fields().Get(c % fd.Message().Fields().Len())
+	}
+	addNested := func(idx int, child protoreflect.FieldDescriptor) {
+		if sub[idx] == nil {
+			sub[idx] = map[string]bool{}
+			order = append(order, -idx)
+		}
+		sub[idx][string(child.Name())] = true
+		fm.Paths = append(fm.Paths, string(fields.Get(idx-1).Name())+"."+string(child.Name()))
+	}
 	for _, x := range g.Sel {
 		switch {
+		case x >= 100 && forRead:
+			k := x - 100
+			idx := k%8%nf + 1
+			child := childOf(idx, (k%40)/8)
+			switch {
+			case child == nil:
+				addWhole(idx)
+				addWhole(idx)
+			case k >= 40:
+				addNested(idx, child)
+				addWhole(idx)
+			default:
+				addWhole(idx)
+				addNested(idx, child)
+			}
 		case x >= 90:
-			if !forRead && !whole[0] {
-				whole[0] = true
-				order = append(order, 0)
+			if !forRead {
+				addWhole(0)
 			}
 		case x >= 20 && forRead:
 			idx := (x-20)%8%nf + 1
-			fd := fields.Get(idx - 1)
-			if fd.Message() != nil && !fd.IsMap() && fd.Message().Fields().Len() > 0 {
-				child := fd.Message().Fields().Get(((x - 20) / 8) % fd.Message().Fields().Len())
-				if sub[idx] == nil {
-					sub[idx] = map[string]bool{}
-					order = append(order, -idx)
-				}
-				sub[idx][string(child.Name())] = true
-				continue
+			if child := childOf(idx, (x-20)/8); child != nil {
+				addNested(idx, child)
+			} else {
+				addWhole(idx)
 			}
-			fallthrough
+		case x >= 20:
+			addWhole((x-20)%8%nf + 1)
 		default:
-			idx := x%nf + 1
-			if x >= 20 {
-				idx = (x-20)%8%nf + 1
-			}
-			if !whole[idx] {
-				whole[idx] = true
-				order = append(order, idx)
-			}
+			addWhole(x%nf + 1)
 		}
 	}
-	fm := &fieldmaskpb.FieldMask{}
 	om := obsMask{Paths: []int{}, Nested: []int{}, sub: map[int]map[string]bool{}}
 	for _, idx := range order {
 		switch {
-		case idx == 0:
-			om.Paths = append(om.Paths, 0)
-			fm.Paths = append(fm.Paths, "verif_no_such_field")
-		case idx > 0:
+		case idx >= 0:
 			om.Paths = append(om.Paths, idx)
-			fm.Paths = append(fm.Paths, string(fields.Get(idx-1).Name()))
 		case !whole[-idx]:
 			om.Nested = append(om.Nested, -idx)
 			om.sub[-idx] = sub[-idx]
-			fd := fields.Get(-idx - 1)
-			for i := 0; i < fd.Message().Fields().Len(); i++ {
-				if c := string(fd.Message().Fields().Get(i).Name()); sub[-idx][c] {
-					fm.Paths = append(fm.Paths, string(fd.Name())+"."+c)
-				}
-			}
 		}
 	}
 	return fm, om
@@ -370,17 +425,27 @@ func (s *session) drain(ps *pullStream) []obsChange {
 
 func (s *session) snapshot(ps *pullStream) obsStream {
 	return obsStream{Sid: ps.sid, Name: ps.name, Uo: ps.uo, Fresh: ps.nread == 0, Quiet: ps.pending == 0,
-		Ended: ps.ended, Vopen: ps.vopen, Msgs: []obsChange{}}
+		Ended: ps.ended, Vopen: ps.vopen, Msgs: []obsChange{}, Mask: ps.mask, Sub: ps.sub}
 }
 
 func (s *session) open(name string, uo bool, vopen []int) *pullStream {
+	return s.openMasked(name, uo, vopen, nil, obsMask{Nil: true, Paths: []int{}, Nested: []int{}}, nil)
+}
+
+func (s *session) openMasked(name string, uo bool, vopen []int, fm *fieldmaskpb.FieldMask, om obsMask, sub []int) *pullStream {
 	req := s.request(s.tr.pull, s.tr.pullName, name)
+	if fm != nil && s.tr.pullMask != nil {
+		req.Set(s.tr.pullMask, protoreflect.ValueOfMessage(fm.ProtoReflect()))
+	}
+	if sub == nil {
+		sub = zeros(s.tr.res.Fields().Len())
+	}
 	if s.tr.pullUpdatesOnly != nil {
 		req.Set(s.tr.pullUpdatesOnly, protoreflect.ValueOfBool(uo))
 	}
 	ctx, cancel := context.WithCancel(context.Background())
 	s.nextSid++
-	ps := &pullStream{sid: s.nextSid, name: name, uo: uo, vopen: vopen, topen: time.Now(), cancel: cancel, ch: make(chan streamEvent, 4096)}
+	ps := &pullStream{sid: s.nextSid, name: name, uo: uo, vopen: vopen, mask: om, sub: sub, topen: time.Now(), cancel: cancel, ch: make(chan streamEvent, 4096)}
 	for len(listenCh) > 0 {
 		<-listenCh
 	}
@@ -509,6 +574,9 @@ func (s *session) run(h genHist) {
 			if err == nil && kind == "good" {
 				s.lastVal = s.goodIndex(op.Val) + 1
 			}
+			if err == nil {
+				s.armed = false
+			}
 			for _, ps := range s.streams {
 				sn := s.snapshot(ps)
 				if changed {
@@ -548,6 +616,32 @@ func (s *session) run(h genHist) {
 			s.streams = append(s.streams, ps)
 			o.Streams = append(o.Streams, sn)
 			o.Post = s.fullGet()
+		case "PullOnce":
+			if !s.pullOnce(&o, op, name, preMsg) {
+				continue
+			}
+		case "TimedUpdate":
+			if !s.timedUpdate(&o, op, name) {
+				continue
+			}
+		case "Wait":
+			if !s.wait(&o) {
+				continue
+			}
+		case "RaceOpen":
+			if len(s.streams) >= 2 {
+				continue
+			}
+			// open and cancel a stream (its dead subscription stays registered until the next publication), then the
+			// gated update; spliced in as ordinary steps
+			n := len(s.streams)
+			rest := append([]genOp{}, ops[k+1:]...)
+			ops = append(ops[:k+1], genOp{Op: "OpenPull", Name: op.Name, Mask: genMask{Nil: true, Sel: []int{}}},
+				genOp{Op: "CloseStream", Which: n}, genOp{Op: "GatedUpdate", Name: op.Name, Val: op.Val, Mask: genMask{Nil: true, Sel: []int{}}})
+			ops = append(ops, rest...)
+			continue
+		case "GatedUpdate":
+			s.gatedUpdate(&o, op, name)
 		case "Other":
 			// another record of the collection holding the addressed record is deleted (which = 0) or (re)created
 			if s.st.other == nil {
